@@ -24,20 +24,7 @@ use mila::fe9_arc;
 // ---------------------------------------------------------------------------------------------
 
 pub fn sjis_sub_char(ch: char) -> Option<Vec<u8>> {
-    let cp = ch as u32;
-    if cp < 0x80 {
-        Some(vec![cp as u8])
-    } else if (0xFF61..=0xFF9F).contains(&cp) {
-        Some(vec![(cp - 0xFF61 + 0xA1) as u8])
-    } else if (0x3041..=0x3093).contains(&cp) {
-        Some(vec![0x82, (0x9F + (cp - 0x3041)) as u8])
-    } else if (0x30A1..=0x30DF).contains(&cp) {
-        Some(vec![0x83, (0x40 + (cp - 0x30A1)) as u8])
-    } else if (0x30E0..=0x30F6).contains(&cp) {
-        Some(vec![0x83, (0x80 + (cp - 0x30E0)) as u8])
-    } else {
-        None
-    }
+    crate::subcodec::enc_char(ch)
 }
 
 pub fn sjis_sub(s: &str) -> Vec<u8> {
@@ -61,6 +48,11 @@ pub fn sub_char(rng: &mut Rng) -> char {
         }
         6 => char::from_u32(rng.range(0xFF61, 0xFF9F) as u32).unwrap(),
         7 => char::from_u32(rng.range(0x3041, 0x3093) as u32).unwrap(),
+        8 => {
+            // Greek / Cyrillic: 2 bytes in UTF-8 and in Shift-JIS (no slack in an encoder's buffer arithmetic)
+            let t = &crate::subcodec::TABLE[4 + rng.below(9) as usize];
+            char::from_u32(rng.range(t.0 as u64, t.1 as u64) as u32).unwrap()
+        }
         _ => char::from_u32(rng.range(0x30A1, 0x30F6) as u32).unwrap(),
     }
 }
